@@ -103,6 +103,8 @@ def k_mont(l1):
 
 def run(chk):
     prog, base = setup(chk)
+    from .common import state_shape
+    state_shape(chk, prog)
     chk.bounds = ["no bound: symbolic valid point in any projective representation"]
     chk.outside = ["'equals the X25519 public key of k' (RFC 7748 birational equivalence + a different implementation's ladder) is a stated consequence, not decided here",
                    "z^(p-2) = 1/z, 0 -> 0 (Fermat)"]
@@ -118,4 +120,5 @@ def run(chk):
 
 def safety_net(chk):
     from .c19 import fresh_battery
-    return mont_battery(chk.seed) or fresh_battery(chk.seed)
+    from sym import ptreplay
+    return mont_battery(chk.seed) or fresh_battery(chk.seed) or ptreplay.battery_receiver_history(chk.seed)
